@@ -1,4 +1,5 @@
 import RichModel.Model.Theme
+import RichModel.Model.ThemeThreads
 import RichModel.Model.ConfigParser
 import RichModel.Drv.Proto
 /- Driver handlers for property C20 (theme stack, get_style, Theme.config / from_file).
@@ -96,8 +97,9 @@ def parseOps : Nat → List Tok → List (Op Nat) × List Tok
       let (ops, r') := parseOps fuel r
       (.use ⟨d⟩ i body :: ops, r')
 
-def encGet : Except GErr Nat → String
-  | .ok s => toString s
+def encGet : Except GErr (Got Nat) → String
+  | .ok (.same s) => toString s
+  | .ok (.fresh s) => toString s ++ "*"          -- a copy with a new link id
   | .error .missingStyle => "M"
   | .error .other => "X"
 
@@ -107,15 +109,40 @@ def decNS (names : List Name) (s : String) : NS Nat :=
   | 'n' :: ds => .str (names.getD (decNat (String.ofList ds)) ['?'])
   | _ => .str ['?']
 
-def runProbe (names : List Name) (parse : Parse Nat) (st : Stack Nat) (p : String) : String :=
+/-- `linked`: ids of the styles that have a link -/
+def decLinked (s : String) : Nat → Bool :=
+  let l := (splitNE s " ").map decNat
+  fun i => l.contains i
+
+def runProbe (names : List Name) (parse : Parse Nat) (linked : Nat → Bool) (st : Stack Nat) (p : String) : String :=
   match p.splitOn ">" with
-  | [a] => encGet (getStyle parse st (decNS names a) none)
-  | [a, d] => encGet (getStyle parse st (decNS names a) (some (decNS names d)))
+  | [a] => encGet (getStyleObj parse linked st (decNS names a) none)
+  | [a, d] => encGet (getStyleObj parse linked st (decNS names a) (some (decNS names d)))
   | _ => "bad-probe"
 
-def encSnap (names : List Name) (parse : Parse Nat) (probes : List String) (st : Stack Nat) : String :=
+def encSnap (names : List Name) (parse : Parse Nat) (linked : Nat → Bool) (probes : List String) (st : Stack Nat) : String :=
   "/".intercalate (st.entries.map (encDict names)) ++ "#" ++ encDict names st.bound ++ "#" ++
-    " ".intercalate (probes.map (runProbe names parse st))
+    " ".intercalate (probes.map (runProbe names parse linked st))
+
+/-- scheduled step `<tid><kind>…` (tid is one digit) -/
+def decSched (names : List Name) (s : String) : Option (Nat × FStep Nat) :=
+  match s.toList with
+  | t :: 'P' :: i :: ':' :: r => some (t.toNat - 48, .push ⟨decDict names (String.ofList r)⟩ (i == '1'))
+  | t :: 'N' :: i :: ':' :: r => some (t.toNat - 48, .enter ⟨decDict names (String.ofList r)⟩ (i == '1'))
+  | [t, 'O'] => some (t.toNat - 48, .pop)
+  | [t, 'X'] => some (t.toNat - 48, .exit)
+  | [t, 'M'] => some (t.toNat - 48, .setPushed)
+  | t :: 'B' :: r =>
+    match (String.ofList r).splitOn "=" with
+    | [k, v] => some (t.toNat - 48, .setBase (names.getD (decNat k) ['?']) (decNat v))
+    | _ => none
+  | _ => none
+
+def encErr : Option Err → String
+  | none => "ok"
+  | some .themeStackError => "ThemeStackError"
+  | some .indexError => "IndexError"
+  | some .userError => "UserError"
 
 def encOutcome : Outcome → String
   | .normal => "normal"
@@ -140,7 +167,7 @@ def handlers : List (String × (List String → String)) := [
       | .error e => encPErr e
     | _ => "bad-args"),
   ("theme_hist", fun a => match a with
-    | [flag, names, ptable, base, ops, probes] =>
+    | [flag, names, ptable, linked, base, ops, probes] =>
       let names := decStrList names
       let parse := decPTable names ptable
       let toks := (splitNE ops ";").filterMap (decTok names)
@@ -148,7 +175,22 @@ def handlers : List (String × (List String → String)) := [
       let st0 : Stack Nat := Stack.init ⟨decDict names base⟩
       let probes := splitNE probes ","
       let (_, out, tr) := traceOps (decBool flag) h st0
-      encOutcome out ++ ";" ++ "|".intercalate ((st0 :: tr).map (encSnap names parse probes))
+      encOutcome out ++ ";" ++ "|".intercalate ((st0 :: tr).map (encSnap names parse (decLinked linked) probes))
+    | _ => "bad-args"),
+  ("theme_mt", fun a => match a with
+    -- threads / outside mutation: after every scheduled step, the step's exception and every thread's view
+    | [shared, flag, names, ptable, linked, base, nthreads, sched, probes] =>
+      let names := decStrList names
+      let parse := decPTable names ptable
+      let shared := decBool shared
+      let sch := (splitNE sched ";").filterMap (decSched names)
+      let S0 : Nat → Stack Nat := fun _ => Stack.init ⟨decDict names base⟩
+      let probes := splitNE probes ","
+      let tids := List.range (decNat nthreads)
+      let view := fun (S : Nat → Stack Nat) =>
+        "~".intercalate (tids.map (fun t => encSnap names parse (decLinked linked) probes (S (slotOf shared t))))
+      "|".intercalate (("ok;" ++ view S0) ::
+        (traceMT shared (decBool flag) sch S0).map (fun r => encErr r.1 ++ ";" ++ view r.2))
     | _ => "bad-args"),
   ("theme_config", fun a => match a with
     -- σ := index into `names` of the style's `str()`
@@ -172,6 +214,15 @@ def handlers : List (String × (List String → String)) := [
       | .err (.parse e) => encPErr e
       | .unmodelled => "unmodelled"
     | _ => "bad-args"),
+  ("theme_read", fun a => match a with
+    | [lower, interp, names, ptable, defaults, text, inherit] =>
+      let names := decStrList names
+      match readPath (decDict names defaults) (decPTable names ptable) (decBool lower) (decBool interp) (decStr text) (decBool inherit) with
+      | .ok t => "ok:" ++ encDict names t.styles
+      | .err (.cfg e) => encCfgErr e
+      | .err (.parse e) => encPErr e
+      | .unmodelled => "unmodelled"
+    | _ => "bad-args"),
   ("cfg_isspace", fun a => match a with
     | [cp] => encBool (isSpace (Char.ofNat (decNat cp)))
     | _ => "bad-args"),
@@ -180,6 +231,11 @@ def handlers : List (String × (List String → String)) := [
     | _ => "bad-args"),
   ("cfg_safe_value", fun a => match a with
     | [interp, s] => encBool (safeValue (decBool interp) (decStr s))
+    | _ => "bad-args"),
+  ("cfg_lower", fun a => match a with
+    | [s] => match lowerName (decStr s) with
+      | some n => encStr n
+      | none => "unmodelled"
     | _ => "bad-args"),
   ("cfg_strip", fun a => match a with
     | [s] => encStr (strip (decStr s))
